@@ -13,7 +13,7 @@ from vlib import c06_ops, c06_rules, mmgen, runner, sut
 
 PID = "C06"
 RULE = (
-    "Hypothesis: a valid vlib.mmgen model (2-5 classes with diamonds, constrained primitives, enumerations, constants, "
+    "Hypothesis: a valid vlib.mmgen model (2-6 classes with diamonds, constrained primitives, enumerations, constants, "
     "pattern functions, typed invariants, plain docstrings) + exactly ONE operator of vlib.c06_ops from a "
     "table keyed by the rule of the property it breaks: inheritance cycle (length 1-4), base that is missing / a constant / "
     "a function / an enumeration, duplicate type / constant / function / property / method, reserved type / property / "
@@ -57,7 +57,7 @@ REPLICAS = 2
 def cases(draw: Any, rule: str) -> Dict[str, Any]:
     tried = 0
     for _ in range(5):
-        opts = mmgen.Opts(max_classes=5, max_props=3, max_invs=2, max_cps=3, p_diamond=0.5,
+        opts = mmgen.Opts(max_classes=6, max_props=3, max_invs=2, max_cps=3, p_diamond=0.5,
                           docs=draw(st.sampled_from(["none", "plain"])))
         spec = draw(mmgen.specs(opts).filter(lambda s: len(s.classes) >= 2))
         base = mmgen.render(spec)
@@ -140,6 +140,9 @@ def shard(ctx: runner.Ctx) -> None:
         exactly_one = not [k for k in others if not k.startswith("x-")] or rule in EXTRA and not others
         cls = [f"rule:{rule}", f"{rule}:{v.split('@')[0]}", "exactly-one-rule" if exactly_one else "several-rules"]
         cls.extend(f"several:{rule}+{o}" for o in others)
+        detail = case["detail"]
+        if detail.endswith("]") and " [" in detail:
+            cls.append(f"variant:{rule}:{detail[detail.rindex(' [') + 2:-1]}")
         if v.startswith("crash:"):
             cls.append(v)
             ctx.notes["crashes (C01)"] = ctx.notes.get("crashes (C01)", 0) + 1
